@@ -50,6 +50,7 @@ def lean_ty(t: str) -> str:
         "L(Int)": "List Int", "L(Val)": "List Val", "LL(Val)": "List (List Val)", "LL(Int)": "List (List Int)",
         "Red": "Val → Val → Int → Val × Int", "Red2": "Val → Val → Val",
         "LA(Val)": "List (List Val)", "V(Val)": "List Val", "S(Val)": "(Int → Val) × Int",
+        "D(Int)": "Int → Option Int",
     }[t]
 
 
@@ -190,6 +191,17 @@ class LoopTranslator:
                 if v is None or v.opt is None:
                     raise TranslateError(f"{self.fname}: `{e.left.id} is None` on a non-optional")
                 return (f"(!{v.opt})" if isinstance(op, ast.Is) else v.opt), "Bool"
+            if isinstance(op, (ast.In, ast.NotIn)) and isinstance(e.comparators[0], ast.Name) and e.comparators[0].id in cx.env:
+                cv = cx.env[e.comparators[0].id]
+                ls, lt = self.expr(cx, e.left)
+                if lt == "Int" and cv.ty == "D(Int)":
+                    r = f"(({cv.lean} {ls}).isSome)"
+                elif lt == "Int" and cv.ty == "A(Int)":
+                    # numpy: membership by value
+                    r = f"((rangeI {cv.lens[0]}).any fun j => decide ({cv.lean} j = {ls}))"
+                else:
+                    raise TranslateError(f"{self.fname}: `in` on {cv.ty}")
+                return (r if isinstance(op, ast.In) else f"(!{r})"), "Bool"
             ls, lt = self.expr(cx, e.left)
             rs, rt = self.expr(cx, e.comparators[0])
             if lt == "Int" and rt == "Int":
@@ -234,6 +246,13 @@ class LoopTranslator:
                 if v.ty == "LA(Val)":
                     return f"({v.lean}.getD {pos} [])", "V(Val)"
                 return f"({v.lean}.getD {pos} Val.nan)", "Val"
+            if v.ty == "D(Int)":
+                # d[k]: a KeyError when the key is absent (flagged)
+                i_s, i_t = self.expr(cx, e.slice)
+                if i_t != "Int":
+                    raise TranslateError(f"{self.fname}: non-integer dict key")
+                self.set_err(cx, f"({v.lean} {i_s}).isSome")
+                return f"(({v.lean} {i_s}).getD 0)", "Int"
             if v.ty.startswith("A2("):
                 if not (isinstance(e.slice, ast.Tuple) and len(e.slice.elts) == 2):
                     raise TranslateError(f"{self.fname}: 2-d array needs two indices")
@@ -283,6 +302,8 @@ class LoopTranslator:
                     return f"({v.lean}.length : Int)", "Int"
                 if v is None or not v.lens:
                     raise TranslateError(f"{self.fname}: len() of {ast.unparse(e.args[0])}")
+                if v.ty == "D(Int)" and (e.args[0].id in self.dict_written or self.loop_depth > 0):
+                    raise TranslateError(f"{self.fname}: len() of a dict after a store / inside a loop")
                 return v.lens[0], "Int"
             if isinstance(f, ast.Name) and f.id in cx.env and cx.env[f.id].ty == "Red2" and len(e.args) == 2 and not e.keywords:
                 a, at = self.expr(cx, e.args[0])
@@ -416,6 +437,18 @@ class LoopTranslator:
         v = cx.env.get(name)
         if v is None:
             raise TranslateError(f"{self.fname}: store into unknown {name}")
+        if v.ty == "D(Int)":
+            if isinstance(tgt.slice, (ast.Tuple, ast.Slice)) or t != "Int":
+                raise TranslateError(f"{self.fname}: dict store shape")
+            ks, kt = self.expr(cx, tgt.slice)
+            if kt != "Int":
+                raise TranslateError(f"{self.fname}: non-integer dict key")
+            # the length variable of a dict is its length at entry: `len(d)` is refused once the dict was written or inside a loop
+            self.dict_written.add(name)
+            nm = cx.fresh(name)
+            cx.lets.append(f"let {nm} : Int → Option Int := aset {v.lean} {ks} (some {s})")
+            cx.env[name] = Var(nm, v.ty, v.lens, None, v.opt)
+            return
         val = self.store_value(v, s, t)
         nm = cx.fresh(name)
         if v.ty.startswith("A2("):
@@ -622,6 +655,32 @@ class LoopTranslator:
                         else:
                             raise TranslateError(f"{self.fname}: tuple target")
                     continue
+                if isinstance(tgt, ast.Name) and isinstance(s.value, ast.Call) and isinstance(s.value.func, ast.Name) \
+                        and s.value.func.id in TRANSLATED and len(TRANSLATED[s.value.func.id][2]) == 1:
+                    lean_fn, ptypes, rtypes = TRANSLATED[s.value.func.id]
+                    if s.value.keywords or len(s.value.args) != len(ptypes):
+                        raise TranslateError(f"{self.fname}: call shape of {s.value.func.id}")
+                    args = []
+                    for a, pt in zip(s.value.args, ptypes):
+                        if pt.startswith("A("):
+                            if isinstance(a, ast.Name) and a.id in cx.env and cx.env[a.id].ty == pt:
+                                av = cx.env[a.id]
+                                args += [av.lens[0], av.lean]
+                            elif isinstance(a, ast.Subscript) and isinstance(a.value, ast.Name) and a.value.id in cx.env \
+                                    and cx.env[a.value.id].ty == "A2(" + pt[2:] and not isinstance(a.slice, (ast.Tuple, ast.Slice)):
+                                # a row of a 2-d array, consumed by the call before anything else happens
+                                av = cx.env[a.value.id]
+                                args += [av.lens[1], f"(fun c => {av.lean} {self.idx(cx, av, 0, a.slice)} c)"]
+                            else:
+                                raise TranslateError(f"{self.fname}: array argument of {s.value.func.id}")
+                        else:
+                            x_, xt = self.expr(cx, a)
+                            args.append(self.coerce(x_, xt, pt))
+                    r = cx.fresh("r")
+                    cx.lets.append(f"let {r} : ({lean_ty(rtypes[0])}) × Bool := {lean_fn} k " + " ".join(args))
+                    self.set_err(cx, f"(!{r}.2)")
+                    self.assign_name(cx, tgt.id, f"{r}.1", rtypes[0])
+                    continue
                 if isinstance(tgt, ast.Name):
                     if isinstance(s.value, ast.Call) and self.alloc(cx, tgt.id, s.value):
                         continue
@@ -633,6 +692,19 @@ class LoopTranslator:
                         # other, which value semantics cannot express - refuse (use `.copy()` in the source for a copy)
                         raise TranslateError(f"{self.fname}: array alias {tgt.id} = {s.value.id}")
                     self.assign_name(cx, tgt.id, v, t, None)
+                    continue
+                if isinstance(tgt, ast.Subscript) and isinstance(tgt.value, ast.Name) and tgt.value.id in cx.env \
+                        and cx.env[tgt.value.id].ty.startswith("A2(") and not isinstance(tgt.slice, (ast.Tuple, ast.Slice)) \
+                        and isinstance(s.value, ast.Subscript) and isinstance(s.value.value, ast.Name) \
+                        and s.value.value.id in cx.env and cx.env[s.value.value.id].ty == cx.env[tgt.value.id].ty \
+                        and not isinstance(s.value.slice, (ast.Tuple, ast.Slice)):
+                    # a2[g] = b2[i]: numpy copies the row element by element
+                    dst, src = cx.env[tgt.value.id], cx.env[s.value.value.id]
+                    i0 = self.idx(cx, dst, 0, tgt.slice)
+                    j0 = self.idx(cx, src, 0, s.value.slice)
+                    nm = cx.fresh(tgt.value.id)
+                    cx.lets.append(f"let {nm} : {lean_ty(dst.ty)} := asetRow {dst.lean} {i0} (fun c => {src.lean} {j0} c)")
+                    cx.env[tgt.value.id] = Var(nm, dst.ty, dst.lens, dst.width)
                     continue
                 if isinstance(tgt, ast.Subscript):
                     v, t = self.expr(cx, s.value)
@@ -919,7 +991,9 @@ class LoopTranslator:
             inner.env[py] = Var(nm, v.ty, v.lens, v.width, v.opt)
         lv = inner.fresh(s.target.id)
         inner.env[s.target.id] = Var(lv, elem_t)
+        self.loop_depth = getattr(self, "loop_depth", 0) + 1
         esc = self.stmts(inner, s.body, in_loop)
+        self.loop_depth -= 1
         if esc is None:
             esc = self.loop_state(inner, in_loop)
         cx.has_err = cx.has_err or inner.has_err
@@ -1086,6 +1160,42 @@ class LoopTranslator:
         return args
 
     # ---------------------------------------------------------------- function
+    def eliminate_aliases(self, fn: ast.FunctionDef, cx: Ctx) -> list:
+        """a top-level `x = y` between array names binds both names to ONE array.  When neither name is ever re-bound
+        (only element / row stores through them), replacing every `x` by `y` is exactly Python's semantics; anything
+        else stays an alias and is refused later"""
+        body = list(fn.body)
+        for st in list(body):
+            if not (isinstance(st, ast.Assign) and len(st.targets) == 1 and isinstance(st.targets[0], ast.Name)
+                    and isinstance(st.value, ast.Name) and st.value.id in cx.env and cx.env[st.value.id].ty.startswith("A")):
+                continue
+            x, y = st.targets[0].id, st.value.id
+            rebound = False
+            for n in ast.walk(fn):
+                tg = []
+                if isinstance(n, ast.Assign):
+                    tg = n.targets
+                elif isinstance(n, (ast.AugAssign, ast.AnnAssign)):
+                    tg = [n.target]
+                elif isinstance(n, ast.For):
+                    tg = [n.target]
+                for t in tg:
+                    for sub in ast.walk(t):
+                        if isinstance(sub, ast.Name) and sub.id in (x, y) and isinstance(sub.ctx, ast.Store) and n is not st:
+                            rebound = True
+            if rebound or x in [a.arg for a in fn.args.args]:
+                continue
+            body.remove(st)
+
+            class Ren(ast.NodeTransformer):
+                def visit_Name(self, node):
+                    if node.id == x:
+                        return ast.copy_location(ast.Name(id=y, ctx=node.ctx), node)
+                    return node
+            body = [Ren().visit(b) for b in body]
+            self.aliases = getattr(self, "aliases", []) + [(x, y)]
+        return body
+
     def function(self, fn: ast.FunctionDef, lean_name: str) -> str:
         cx = Ctx(self.fname, {})
         sig = []
@@ -1112,19 +1222,24 @@ class LoopTranslator:
                 opt = f"{lp}_is_some"
                 sig.append(f"({opt} : Bool)")
             lens = ()
-            if t.startswith("A("):
+            if t.startswith("A(") or t == "D(Int)":
                 lens = (f"{lp}_len",)
                 sig.append(f"({lp}_len : Int)")
+            elif t.startswith("A2("):
+                lens = (f"{lp}_len0", f"{lp}_len1")
+                sig.append(f"({lp}_len0 : Int) ({lp}_len1 : Int)")
             sig.append(f"({lp} : {lean_ty(t)})")
             cx.env[p] = Var(lp, t, lens, (True, 64) if t == "A(Int)" else None, opt)
         cx.env["err!"] = Var("false", "Bool")
         self.fn_ast = fn
+        self.dict_written = set()
+        self.loop_depth = 0
         self.views = []
         self.uses_div = False
         self.extra_params = {}
         self.ret_ty = None
         self.pending_ret = None
-        body = [s for s in fn.body]
+        body = self.eliminate_aliases(fn, cx)
         esc = self.stmts(cx, body, None)
         if esc is None:
             raise TranslateError(f"{self.fname}: no return")
@@ -1252,6 +1367,10 @@ LOOPS = {
     "first_non_null_int": ("util", "jit_get_first_non_null/f#0", {"arr": "A(Val)"}, "Val", ["Int", "Val"]),
     "nb_reduce": ("nanops", "_nb_reduce", {"reduce_func": "Red2", "arr": "A(Val)", "skipna": "Bool", "initial_value": "OptVal"}, "Val",
                   ["Val"]),
+    "combine_factorizations_arr": ("fact", "_combine_factorizations",
+                                   {"codes": "A2(Int)", "code_weights": "A(Int)", "code_tracker": "A(Int)"}),
+    "combine_factorizations_dict": ("fact", "_combine_factorizations",
+                                    {"codes": "A2(Int)", "code_weights": "A(Int)", "code_tracker": "D(Int)"}),
     "group_nearby_members": ("numba", "group_nearby_members",
                              {"group_key": "A(Int)", "values": "A(Val)", "max_diff": "Val", "n_groups": "Int"}),
     "build_group_sorted_indexer": ("core", "_build_group_sorted_indexer_numba",
